@@ -212,6 +212,12 @@ func (x *Exec) newError(st *State, msg *Term) *Term {
 // externInvoke: methods of interfaces declared outside the repository
 func (x *Exec) externInvoke(st *State, c *ssa.CallCommon, iname string, recv *Term, args []Val, pos token.Pos) ([]Outcome, bool) {
 	named, _ := c.Value.Type().(*types.Named)
+	if sig, ok := c.Method.Type().(*types.Signature); ok && sig.Recv() != nil {
+		if dn, ok := sig.Recv().Type().(*types.Named); ok {
+			named = dn
+			iname = dn.Obj().Name()
+		}
+	}
 	pkg := ""
 	if named != nil && named.Obj().Pkg() != nil {
 		pkg = named.Obj().Pkg().Path()
